@@ -358,8 +358,8 @@ def bounded_run_case(K=3, kmax=1, coast=True):
     st["dt"] = DT
     st["mass_static"] = MASS
     st["mass_rot"] = 0
-    for f in ("res_rolling", "res_davis_b", "res_aero", "res_grade", "res_curve"):
-        st[f] = 0
+    for f in ("res_rolling", "res_davis_b", "res_aero", "res_grade", "res_curve", "res_bearing"):
+        st[f] = 0  # level track without resistance (what update_res would store for the all-zero resistance model below)
     L = Sym("L")
     flat = [{"offset": 0, "res_coeff": 0, "res_net": 0}, {"offset": L, "res_coeff": 0, "res_net": 0}]
     tpc = {"link_points": [{"offset": 0, "grade_count": 0, "curve_count": 0, "cat_power_count": 0, "link_idx": 1}, {"offset": L, "grade_count": 0, "curve_count": 0, "cat_power_count": 0, "link_idx": 0}],
